@@ -254,7 +254,26 @@ def prime():
     from vtlengine.duckdb_transpiler.Config import config as C
     if (C.DECIMAL_WIDTH, C.DECIMAL_SCALE) != (C.DEFAULT_DECIMAL_WIDTH, C.DEFAULT_DECIMAL_SCALE):
         raise RuntimeError("engine configuration globals are not pristine before the first run()")
+    _warm_third_party()
     return V
+
+
+def _warm_third_party():
+    """lazy one-time initialisations of pandas / pyarrow / numpy (no engine code, no engine state) done once in the
+    parent instead of in every child; gc.freeze() keeps the collector from dirtying the pages shared with the children"""
+    import gc
+    import encodings.utf_8_sig  # noqa: F401
+    import numpy.rec  # noqa: F401
+    import pandas as pd
+    import pandas.core.methods.to_dict  # noqa: F401
+    import pyarrow as pa
+    import pyarrow.pandas_compat  # noqa: F401
+    df = pd.DataFrame({"a": pd.Series(["1.5", None], dtype=object), "b": [2, 1], "c": [1.5, float("nan")]})
+    pa.Table.from_pandas(df)
+    df.sort_values("b").to_dict("records")
+    pd.isna(df["c"][0])
+    gc.collect()
+    gc.freeze()
 
 
 def _run_program(V, prog, wdir):
@@ -371,7 +390,11 @@ def expected_rows(rows, s, mode):
 
 
 def fits(x, w, s):
-    return x is None or abs(x) < Decimal(10) ** (w - s)
+    if x is None:
+        return True
+    with localcontext() as ctx:  # abs() rounds to the context precision: the default 28 digits would turn 99...9 into 10^n
+        ctx.prec = 200
+        return abs(x) < Decimal(10) ** (w - s)
 
 
 def fl(x):
@@ -395,8 +418,17 @@ def evaluate_program(p, prog, obs, mode, cfg_code):
     empty_rejected = p["empty"] and obs[0] == "err" and (
         (obs[1] == "vtl" and obs[4] == cfg_code) or (obs[1] != "vtl" and "duckdb" not in (obs[3] or "")))
     if p["expect"] == "config-error" or empty_rejected:
-        who = "+".join(p["offending"] or p["empty"])
-        klass = "+".join("%s" % c for v, c in ((SCALE_VAR, p["cs"]), (WIDTH_VAR, p["cw"])) if v in (p["offending"] or p["empty"]))
+        bad_vars = p["offending"] or p["empty"]
+        if len(bad_vars) == 2 and p["cs"] == p["cw"]:
+            # both variables offend in the same way: the setting says nothing the two single-variable settings do not
+            # say, so a deviation is filed under each variable (same keys as there) instead of under a third key
+            out = []
+            for v in bad_vars:
+                q = dict(p, offending=[v], empty=[], expect="config-error")
+                out += [d for d in evaluate_program(q, prog, obs, mode, cfg_code) if not d[0].endswith("error-names-another-variable")]
+            return out
+        who = "+".join(bad_vars)
+        klass = "+".join("%s" % c for v, c in ((SCALE_VAR, p["cs"]), (WIDTH_VAR, p["cw"])) if v in bad_vars)
         if obs[0] == "ok":
             devs.append(("%s:%s:accepted" % (who, klass), "%s is outside the documented values but run() succeeded" % setting))
         elif obs[1] != "vtl":
@@ -436,11 +468,12 @@ def evaluate_program(p, prog, obs, mode, cfg_code):
     if any(not fits(x, w, s) for e in exp for x in e[:2]):
         raise RuntimeError("oracle construction error: an input of %s does not fit (%d,%d)" % (kind, w, s))
     if obs[0] == "err":
-        if overflow and w >= 38:
-            # the exact sum needs more digits than any DECIMAL has: a VTL error is a legitimate answer
+        if overflow:
+            # the exact sum needs one digit more than the configured width: the exact value is expected (the property puts
+            # no precision limit on results), a VTL error is tolerated as 'does not fit the configured precision'
             if obs[1] != "vtl":
-                devs.append(("sum-difference:result-exceeds-maximum-precision:%s" % err_class(obs),
-                             "%s (DECIMAL(%d,%d)): %s + %s needs %d digits; expected the exact sum or a VTL error, got raw %s.%s: %s" % (
+                devs.append(("sum-difference:result-needs-one-digit-more-than-the-configured-width:%s" % err_class(obs),
+                             "%s (DECIMAL(%d,%d)): %s + %s needs %d digits; expected the exact sum (or at least a VTL error), got raw %s.%s: %s" % (
                                  setting, w, s, prog["rows"][0][0], prog["rows"][0][1], w + 1, obs[3], obs[2], obs[5][:160])))
             return devs
         tail = "rejected:%s" % obs[4] if obs[1] == "vtl" else err_class(obs)
@@ -640,7 +673,8 @@ class Check:
         "returned Numbers are float64: stored values and sums are compared with relative tolerance 1e-9 (0 must be exactly 0), so a wrong "
         "rounding of a value with more than ~9 significant digits is only visible through the differences of pairs (which are included)",
         "rounding rule: any round-to-nearest rule is accepted as 'rounded'; which one is calibrated once on the default setting",
-        "a sum that needs more digits than DECIMAL(38) may be answered by a VTL error; an empty-string value may be treated as 'not defined'",
+        "a sum that needs one digit more than the configured width may be answered by a VTL error (never by a raw one); an empty-string value "
+        "may be treated as 'not defined'",
         "settings whose width is below the scale (both documented as accepted) only have to avoid raw errors",
         "scalar Number results (rounded to significant digits by _normalize_scalar_value) are not part of this check",
     ]
